@@ -272,9 +272,89 @@ static bool on_stuck(std::string& key, std::string& what, std::string& wit) {
     return proved;
 }
 
+
+// ------------------------------------------------------------------ probe: stolen while being switched out
+// A context switch marks the outgoing thread READY and releases the run-queue lock before its stack pointer is
+// stored. If a stealer may take the thread in that window it resumes it from its previous context: the thread then
+// continues from an older suspension point (and two vCPUs use its stack). Threads here suspend at varying stack depth
+// and every suspension point knows which suspension (sequence number) it is: coming back from an older one is the
+// violation. Fewer threads than vCPUs, so that some idler is always scanning; P_SWITCH_BEFORE_SAVE widens the window.
+namespace swprobe {
+struct PT { std::atomic<uint64_t> seq{0}; std::atomic<int> active{0}; uint64_t seed = 0; int id = 0; std::atomic<int> done{0}; };
+static PT g_pt[16];
+static vh::NamedCounter c_susp("probe_suspensions"), c_moved("probe_resumed_on_another_vcpu");
+static void stale(PT& t, uint64_t mine, uint64_t now_seq, const char* how) {
+    vh::violation("run/resumed-from-stale-context", "a thread came back from a suspension point it had already left (its saved context was "
+                  "not the latest one: resumed by another vCPU before the switch away from it had saved it)",
+                  vh::JObj().kv("thread", t.id).kv("suspension_returned", mine).kv("latest_suspension", now_seq).kv("how", how).str());
+    vh::write_summary();
+    _exit(10);          // the stack of this thread is shared with another vCPU by now: nothing more can be trusted
+}
+__attribute__((noinline)) static void suspend_at(PT& t, vh::Rng& rng, int depth) {
+    volatile uint64_t pad[6];
+    for (auto& x : pad) x = t.seq.load(vh::MO) ^ depth;
+    if (depth > 0) { suspend_at(t, rng, depth - 1); (void)pad[depth % 6]; return; }
+    uint64_t mine = t.seq.fetch_add(1, vh::MO) + 1;
+    auto v0 = get_vcpu();
+    t.active.store(0, vh::MO);
+    switch (rng.below(4)) {
+    case 0: thread_usleep(rng.range(1, 40)); break;
+    default: thread_yield();
+    }
+    if (t.active.exchange(1, vh::MO) != 0)
+        vh::violation("run/two-vcpus-at-once", "a thread resumed while another vCPU was still executing it", vh::JObj().kv("after", "probe-suspend").str());
+    uint64_t latest = t.seq.load(vh::MO);
+    if (latest != mine) stale(t, mine, latest, "returned");
+    if (get_vcpu() != v0) c_moved.add();
+    c_susp.add(); vh::event(); vh::progress();
+}
+static void* body(void* arg) {
+    PT& t = *(PT*)arg;
+    vh::Rng rng(t.seed);
+    t.active.store(1, vh::MO);
+    uint64_t n = vh::args().thorough() ? 60000 : 12000;
+    if (vh::is_tsan()) n /= 6;
+    n = std::max<uint64_t>(500, n / vh::args().shape_div());
+    for (uint64_t i = 0; i < n; ++i) suspend_at(t, rng, rng.below(7));
+    t.done.store(1, vh::MO);
+    return nullptr;
+}
+static int run(vh::Rng& r) {
+    int nv = r.pick({3, 4, 6});
+    int nt = std::max(2, nv - (int)r.range(1, 2));
+    using namespace photon::verif;
+    auto& S = vh::st();
+    S.stall_den[P_SWITCH_BEFORE_SAVE] = r.pick({4u, 8u, 32u}); S.stall_max_ns[P_SWITCH_BEFORE_SAVE] = r.pick({5000u, 30000u, 100000u});
+    S.stall_den[P_WS_SCAN] = r.pick({0u, 64u, 512u}); S.stall_max_ns[P_WS_SCAN] = 5000;
+    S.stall_sleep_den = r.pick({0u, 16u});
+    g_hooks.point = &vh::stall_handler;
+    vh::config("section", "steal-during-switch-probe"); vh::config("vcpus", nv); vh::config("threads", nt);
+    vh::start_supervisor([](std::string& k, std::string& w, std::string&) { k = "life-switch-probe"; w = "probe made no progress"; return false; });
+    vh::VCpus vc;
+    vc.run(nv, [&](int) { return (uint64_t)(VCPU_ENABLE_ACTIVE_WORK_STEALING | VCPU_ENABLE_PASSIVE_WORK_STEALING); }, [&](int v) {
+        if (v != 0) return;
+        std::vector<join_handle*> jh;
+        for (int i = 0; i < nt; ++i) {
+            g_pt[i].id = i; g_pt[i].seed = vh::mix(vh::args().xseed(), 700 + i);
+            jh.push_back(thread_enable_join(thread_create(body, &g_pt[i], 256 * 1024, 0, THREAD_ENABLE_WORK_STEALING)));
+        }
+        for (auto h : jh) thread_join(h);
+    });
+    for (int i = 0; i < nt; ++i)
+        if (!g_pt[i].done.load()) vh::violation("run/thread-lost-or-not-finished", "a probe thread did not finish before its vCPU shut down", "null");
+    uint64_t steals = vh::cov(C_STEAL_RUNQ) + vh::cov(C_STEAL_STANDBYQ);
+    vh::set_sig("swprobe|v" + std::to_string(nv) + "|" + vh::cov_signature({C_STEAL_RUNQ, C_STEAL_STANDBYQ}), steals > 0);
+    vh::sample(vh::JObj().kv("section", "steal-during-switch-probe").kv("vcpus", nv).kv("threads", nt).kv("suspensions", c_susp.get())
+                   .kv("steals_runq", vh::cov(C_STEAL_RUNQ)).kv("steals_standbyq", vh::cov(C_STEAL_STANDBYQ)).kv("resumed_on_another_vcpu", c_moved.get())
+                   .kv("stalls_fired", (uint64_t)S.stall_fired[P_SWITCH_BEFORE_SAVE].load()).str());
+    return vh::finish();
+}
+}  // namespace swprobe
+
 int main(int argc, char** argv) {
     vh::init(argc, argv);
     vh::Rng r(vh::args().xseed());
+    if (vh::args().has("section") ? vh::args().gets("section", "") == "swprobe" : vh::args().exec % 8 == 5) return swprobe::run(r);
     g_nv = vh::args().geti("vcpus", r.pick({1, 2, 3, 4, 6}));
     g_alloc_mode = vh::args().geti("alloc", r.below(3));
     int ws_mode = r.below(4);       // 0 none, 1 all active+passive, 2 random per vCPU, 3 one stealer
@@ -295,7 +375,7 @@ int main(int argc, char** argv) {
     if (g_alloc_mode == 2 && use_global_pooled_stack_allocator() != 0) vh::machinery_failure("global stack pool init failed");
     if (set_photon_thread_stack_allocator(g_ra) != 0) vh::machinery_failure("cannot install recording stack allocator");
     using namespace photon::verif;
-    vh::arm_stalls(r, {P_WS_SCAN, P_MIGRATE, P_DIE_AFTER_NOTIFY, P_JOIN, P_PRELOCKED_INTERRUPT, P_RESUME_BEFORE_LOCK, P_INTERRUPT_BEFORE_LOCK, P_WAITQ_RESUME});
+    vh::arm_stalls(r, {P_WS_SCAN, P_MIGRATE, P_DIE_AFTER_NOTIFY, P_JOIN, P_PRELOCKED_INTERRUPT, P_RESUME_BEFORE_LOCK, P_INTERRUPT_BEFORE_LOCK, P_WAITQ_RESUME, P_SWITCH_BEFORE_SAVE});
     std::string fl;
     for (auto f : flags) fl += std::to_string(f);
     vh::config("vcpus", g_nv); vh::config("alloc", g_alloc_mode == 0 ? "default" : g_alloc_mode == 1 ? "pooled" : "global-pooled");
